@@ -152,21 +152,26 @@ def setup():
     with Lock():
         l = build_lean()
         h = build_harness()
+        # pre-build the CLI binary and the Python extension used by S7
+        sh([sys.executable, os.path.join(VERIF, "tools", "front.py"), "cli,python", "1", "1"], timeout=3000)
     print(json.dumps(dict(lean_ok=l["ok"], lean_broken=l["broken"][:5], harness_ok=h["ok"], harness_msg=h["msg"][-300:],
                           wall=l["wall"] + h["wall"]), indent=1))
     return 0 if (l["ok"] and h["ok"]) else 1
 
 
 # --------------------------------------------------------------------------- streams
-def harness_lines(args, timeout=3000):
-    rc, out, err = sh([HARNESS] + args, timeout=timeout)
+STREAM_TIMEOUT = [900]      # seconds for one harness / driver invocation (raised for the thorough tier)
+
+
+def harness_lines(args, timeout=None):
+    rc, out, err = sh([HARNESS] + args, timeout=timeout or STREAM_TIMEOUT[0])
     if rc != 0:
         raise RuntimeError("harness %s failed: %s" % (args[:2], err[-300:]))
     return out
 
 
-def drive(req_text, timeout=3000):
-    rc, out, err = sh([DRIVER, os.path.join(REPO, "data", "stdlib_complete.txt")], inp=req_text, timeout=timeout, big_stack=True)
+def drive(req_text, timeout=None):
+    rc, out, err = sh([DRIVER, os.path.join(REPO, "data", "stdlib_complete.txt")], inp=req_text, timeout=timeout or STREAM_TIMEOUT[0], big_stack=True)
     if rc != 0:
         raise RuntimeError("driver failed rc=%s: %s" % (rc, err[-300:]))
     return out.split("\n")
@@ -201,7 +206,7 @@ def run_trace(cases, seed, profile, unsafe_sel):
     return list(zip(reqs, outs))
 
 
-def run_lines(cmd, args, prefix, timeout=3000):
+def run_lines(cmd, args, prefix, timeout=None):
     """harness subcommand -> driver; returns list of (request_line, driver_line)"""
     req = harness_lines([cmd] + args, timeout=timeout)
     reqs = [l for l in req.split("\n") if l.startswith(prefix + " ")]
@@ -217,9 +222,9 @@ def run_hist(cases, seed, maxlen):
 
 
 def run_probe(depth, deep=0):
-    req = harness_lines(["probe", "--depth", str(depth), "--deep", str(deep)], timeout=6000)
+    req = harness_lines(["probe", "--depth", str(depth), "--deep", str(deep)])
     n = req.count("\n")
-    outs = [l for l in drive(req, timeout=6000) if l.startswith("probe ")]
+    outs = [l for l in drive(req) if l.startswith("probe ")]
     mism = [l for l in outs if not l.startswith("probe ok")]
     return n, mism
 
@@ -313,7 +318,7 @@ PROPS = {
     "C06": dict(key="C06", unsafe="mix", streams=("S2", "S3"), s1=r"^$", ns=["C06"], big=True),
     "C08": dict(key=None, unsafe="mix", streams=("S6", "S3"), s1=r"^$", ns=["C08"]),
     "C09": dict(key="gen", unsafe="mix", streams=("S3", "S4", "S5"), s1=r"^$", ns=["C09", "C18", "Tables"], big=True),
-    "C10": dict(key="C10", unsafe="mix", streams=("S1", "S2"), s1=r"can_emit:(Ext|NextBuffer|ReadOnlyBuffer)|valid_opcodes",
+    "C10": dict(key="C10", unsafe="mix", streams=("S1", "S2", "S7f"), s1=r"can_emit:(Ext|NextBuffer|ReadOnlyBuffer)|valid_opcodes",
                 ns=["C10", "Tables"]),
     "C11": dict(key="C11", unsafe="mix", streams=("S1", "S2", "S3"), s1=r"cleanup", ns=["C11"], big=True),
     "C15": dict(key=None, unsafe="mix", streams=("S4", "S3", "S2r0"), s1=r"^$", ns=["C15"]),
@@ -463,7 +468,7 @@ def stream_s3(cx):
     jobs = [(["--cases", str(n), "--seed", str(cx.seed * 131 + 7), "--profile", prof, "--unsafe", "mix"]) for prof, n in cx.T["gen"].items()]
     jobs.append(["--exhaustive", str(cx.T["gen_exhaustive"])])
     for args in jobs:
-        for (req, out) in run_lines("gen", args, "gen", timeout=6000):
+        for (req, out) in run_lines("gen", args, "gen", timeout=None):
             cx.cov["disagreements_checked"] += 1
             r = toks(req)
             if cx.prop == "C09":
@@ -494,7 +499,7 @@ def stream_s4(cx):
     ok = 0
     bad = []
     fired = set()
-    for (req, out) in run_lines("mut", ["--cases", str(cx.T["mut"]), "--seed", str(cx.seed * 17 + 3)], "mut", timeout=6000):
+    for (req, out) in run_lines("mut", ["--cases", str(cx.T["mut"]), "--seed", str(cx.seed * 17 + 3)], "mut", timeout=None):
         cx.cov["evaluations"] += 1
         r = toks(req)
         cx.bump("%s/%s/%s" % (r.get("kind"), r.get("method"), "rand" if r.get("ent", "").startswith("rand") else "arb"))
@@ -509,7 +514,10 @@ def stream_s4(cx):
             continue
         det = out.split(" FAIL ", 1)[-1]
         last = det.split(" ")[-1]
-        if "result=panic" in req or last.startswith("panic"):
+        if "result=hang" in req:
+            if cx.prop in ("C16", "C09"):
+                cx.failing.append(("S4", case_of(req), "mutator_did_not_return_within_10s"))
+        elif "result=panic" in req or last.startswith("panic"):
             if cx.prop in ("C16", "C09"):
                 cx.failing.append(("S4", case_of(req), "mutator_panicked"))
         elif tag and last.startswith(tag):
@@ -530,7 +538,7 @@ def stream_s5(cx):
     bad = []
     seen = set()
     args = ["--cases", str(cx.T["src"]), "--seed", str(cx.seed * 19 + 5)] + (["--exhaustive2"] if cx.T["src_exhaustive2"] else [])
-    for (req, out) in run_lines("src", args, "src", timeout=6000):
+    for (req, out) in run_lines("src", args, "src", timeout=None):
         cx.cov["evaluations"] += 1
         r = toks(req)
         cx.bump("%s/%s" % (r.get("method"), "rand" if r.get("ent", "").startswith("rand") else "arb"))
@@ -541,9 +549,9 @@ def stream_s5(cx):
             ok += 1
             continue
         det = out.split(" ")[-1]
-        if "result=panic" in req:
+        if "result=panic" in req or "result=hang" in req:
             if cx.prop in ("C18", "C09"):
-                cx.failing.append(("S5", case_of(req), "entropy_adapter_panicked"))
+                cx.failing.append(("S5", case_of(req), "entropy_adapter_panicked_or_hung"))
         elif det.startswith("contract:"):
             if cx.prop == "C18":
                 cx.failing.append(("S5", case_of(req), det[:300]))
@@ -702,7 +710,25 @@ def targeted_search(cx, mismatches, budget=40):
     return tried
 
 
-STREAMS = {"S1": stream_s1, "S2": stream_s2, "S3": stream_s3, "S4": stream_s4, "S5": stream_s5, "S6": stream_s6,
+def stream_s7_flags(cx):
+    """C10 also says the CLI forwards --allow-ext / --allow-buffer: single-file and batch mode under the
+    opt-in flags must equal the library (S7, flag-carrying option sets only)"""
+    n = 18 if cx.tier == "quick" else 200
+    with Lock():
+        rc, out, err = sh([sys.executable, os.path.join(VERIF, "tools", "front.py"), "cli,batch", str(n), str(cx.seed + 5)],
+                          timeout=STREAM_TIMEOUT[0] * 2)
+    lines = [l for l in out.split("\n") if l.startswith("front ")]
+    if rc != 0 or not lines:
+        cx.corr.append(dict(stream="S7", count=1, first="front.py did not run: " + (err or out)[-300:]))
+        return
+    bad = [l for l in lines if " FAIL " in l and (('"ext":true' in l) != ('"buf":true' in l) or "build" in l)]
+    cx.cov["disagreements_checked"] += len(lines)
+    cx.cov["traces_validated_against_impl"] += sum(1 for l in lines if " ok " in l)
+    if bad:
+        cx.corr.append(dict(stream="S7", count=len(bad), first=bad[0][:800]))
+
+
+STREAMS = {"S7f": stream_s7_flags, "S1": stream_s1, "S2": stream_s2, "S3": stream_s3, "S4": stream_s4, "S5": stream_s5, "S6": stream_s6,
            "S2r0": lambda cx: stream_s2(cx, rate0_only=True)}
 
 
@@ -1074,6 +1100,62 @@ def check_c12(prop, tier, seed):
     return finish(prop, tier, seed, t0, cov, violations, known_lines, notes)
 
 
+def check_c13(prop, tier, seed):
+    """front ends: theorems C13.* on the option-plumbing model; S7 runs the real binary (single + batch with
+    1/2/16 rayon workers), the real wrapper script and the real extension module and compares every file /
+    returned byte string with the Rust library called with the configuration the options denote."""
+    t0 = time.time()
+    cx = Ctx("C09", tier, seed)
+    cx.prop = "C13"
+    cov = cx.cov
+    violations, known_lines, notes = [], [], []
+    with Lock():
+        lean = build_lean()
+        har = build_harness()
+    obligations(cov, lean, ["C13"])
+    if not har["ok"]:
+        p = write_replay(prop, "correspondence", dict(stream="harness-build", detail=har["msg"][-800:]))
+        return finish(prop, tier, seed, t0, cov, [(p, " no-failing-input-found")], known_lines, notes)
+    n = 36 if tier == "quick" else 600
+    with Lock():      # the front-end builds share cargo target directories
+        rc, out, err = sh([sys.executable, os.path.join(VERIF, "tools", "front.py"), "cli,batch,action,python", str(n), str(seed)],
+                          timeout=STREAM_TIMEOUT[0] * 2)
+    lines = [l for l in out.split("\n") if l.startswith("front ")]
+    seen = set()
+    for l in lines:
+        cov["evaluations"] += 1
+        kind = l.split(" ")[1]
+        cx.bump(kind)
+        seen.add(l.split(" ", 3)[-1][:200])
+        if " ok " in l:
+            if len(cov["samples"]) < 4 and kind not in [s_.get("front_end") for s_ in cov["samples"]]:
+                cov["samples"].append(dict(front_end=kind, comparison=l[:260]))
+        else:
+            cx.failing.append(("S7", l, l.split(" FAIL ", 1)[-1][:300]))
+    if rc != 0 or not lines:
+        cx.corr.append(dict(stream="S7", count=1, first="front.py did not run: " + (err or out)[-400:]))
+    cov["distinct_nontrivial"] = len(seen)
+    cov["traces_validated_against_impl"] = sum(1 for l in lines if " ok " in l)
+    cov["input_distribution"] = cx.hist
+    cov["not_modelled"] = ["clap parsing, rayon scheduling, PyO3 glue and file-system writes are exercised through the real binary / module, not modelled"]
+    cov["impl_vs_oracle_failures"] = len(cx.failing)
+    if cx.failing:
+        classes = {}
+        for _, l, det in cx.failing:
+            classes.setdefault(l.split(" ")[1], (l, det))
+        for k, (l, det) in list(classes.items())[:4]:
+            p = write_replay(prop, "failing-input", dict(stream="S7", case=l[:1500], observed=det,
+                             required="the bytes written / returned by the front end equal the library's for the configuration the options denote",
+                             rerun="python3 /verif/tools/front.py %s %d %d" % (k, n, seed)))
+            violations.append((p, ""))
+    elif (not lean["ok"]) or cx.corr:
+        what = ([dict(kind="proof-obligation", broken=lean["broken"][:6])] if not lean["ok"] else []) + [dict(kind="correspondence", **c) for c in cx.corr]
+        p = write_replay(prop, "obligation", dict(no_longer_checks=what, note="no front-end call with different bytes was found"))
+        violations.append((p, " no-failing-input-found"))
+    return finish(prop, tier, seed, t0, cov, violations, known_lines, notes)
+
+
+EXTRA["C13"] = check_c13
 EXTRA["C07"] = check_c07
 EXTRA["C12"] = check_c12
 
@@ -1114,6 +1196,8 @@ def main():
     ap.add_argument("--replay")
     a = ap.parse_args()
     seed = int(os.environ.get("VERIF_SEED", "1") or 1)
+    if a.tier == "thorough":
+        STREAM_TIMEOUT[0] = 7200
     if a.replay:
         sys.exit(replay(a.replay))
     if a.prop == "setup":
